@@ -68,7 +68,8 @@ def main(tier):
             nctx = 2
         if i == 1:
             p = ["seq", ["with", 0, ["forward"]], ["with", 0, ["raise"]], ["with", 0, ["forward"]]]
-        cases.append({"kind": "program", "seed": ck.seed + i, "prog": p, "nctx": nctx})
+        # half of the programs raise INSIDE a forward pass (at the first or the last quantized module), the others between forwards
+        cases.append({"kind": "program", "seed": ck.seed + i, "prog": p, "nctx": nctx, "raise_at": [None, 0, 2, None, 2][i % 5]})
     for wq in ("qint8", "qint4", "qint2", "qfloat8"):
         for aq in (None, "qint8", "qfloat8"):
             for frozen in (False, True):
@@ -97,6 +98,10 @@ def main(tier):
                 ck.violation("global hook registries / function-mode stack not restored after leaving the Calibration contexts", {"program": c["prog"], "before": b, "after": a})
             if r["raised"] != model_raises(c["prog"]):
                 ck.violation("an exception raised inside a Calibration context was swallowed (or appeared from nowhere)", {"program": c["prog"], "raised": r["raised"]})
+            if r.get("after_matches_control") is False:
+                ck.violation("after leaving the Calibration contexts" + (" through an exception raised inside a forward pass" if c.get("raise_at") is not None and r["raised"] else "")
+                             + " the model no longer behaves as its state_dict says (a freshly quantized control model loaded with the same state_dict gives other outputs: " + str(r.get("after_cls")) + ")",
+                             {"program": c["prog"], "raise_at": c.get("raise_at"), "observed": r.get("after_cls")})
             if not r["fresh_unchanged"]:
                 ck.violation("a model created and run after the contexts were left is modified by a forward pass", {"program": c["prog"]})
             if any(not x["restored"] for x in r.get("left", [])):
@@ -112,6 +117,8 @@ def main(tier):
                 ck.violation("a float tensor read by forward / quantize_weight / quantize_activation was modified", {"config": cfg, "observed": r})
             if not r["repeat_identical"]:
                 ck.violation("repeated evaluation on the same input is not bit-identical", {"config": cfg})
+            if r.get("held_params_changed"):
+                ck.violation("quantize() modified float Parameter objects it read (references held by the caller: " + ", ".join(r["held_params_changed"][:3]) + " changed shape or content)", {"config": cfg, "changed": r["held_params_changed"]})
             if not r["quantize_keeps_params"]:
                 ck.violation("quantize() changed float parameter bits", {"config": cfg})
             if r.get("freeze_touched_other"):
